@@ -92,7 +92,26 @@ def run(ctx):
     # the sender's sleep on the window against the arrival of updates (gate between its load and its sleep)
     from vlib import wakefam
     ww = wakefam.run_winwake(ctx)
+    # the charge of a send against the credit of a window update, unscheduled: exact conservation under a flood of updates
+    binr = ctx.go_build("mwinrace")
+    pr = ctx.run([binr, "-rounds", "6" if quick else "40", "-seed", str(ctx.seed)], timeout=1800)
+    if pr.returncode != 0:
+        raise Broken("mwinrace failed: %s" % pr.stderr[-2000:])
+    race = None
+    for line in pr.stdout.splitlines():
+        d = json.loads(line)
+        if "summary" in d:
+            race = d["summary"]
+        else:
+            ctx.violation("winrace:" + d["sig"], d["detail"], d)
+    if not race or race["sends_during_floods"] < 1000:
+        raise Broken("mwinrace: the sender did not run while the updates arrived (%s)" % race)
     ctx.coverage = {
+        "window_conservation_under_flood": {"model": "MpxFlow.tla (Conservation)", "rounds": race["rounds"], "window_updates": race["updates"],
+                                            "sends_while_updates_arrived": race["sends_during_floods"], "bytes": race["bytes"],
+                                            "rule": "a handler streams one-byte messages while the peer floods the channel with window updates of one byte; "
+                                                    "the number of bytes admitted before the sender blocks for good equals W + sum(deltas) exactly: "
+                                                    "one byte more is a lost charge, one byte less a lost credit or wake-up"},
         "window_wakeups": {"model": "MpxWinWake.tla", "schedules_replayed": ww["schedules"], "steps": ww["steps"],
                            "rule": "a Send waiting for window is held at the gate between loading the window and going to sleep; in half of the schedules a "
                                    "second goroutine calls Send on the same channel meanwhile (it has to queue up behind the first); the peer's "
